@@ -5,6 +5,7 @@ import Driver.PtrCell
 import Driver.Dict
 import Driver.BlockAlloc
 import Driver.EventQueue
+import Driver.Dispatch
 
 def main (args : List String) : IO UInt32 := do
   match args with
@@ -15,4 +16,5 @@ def main (args : List String) : IO UInt32 := do
   | ["dict"] => Driver.Dict.main; return 0
   | ["blockalloc"] => Driver.BlockAlloc.main; return 0
   | ["eventqueue"] => Driver.EventQueue.main; return 0
+  | ["dispatch"] => Driver.Dispatch.main; return 0
   | _ => IO.eprintln "usage: driver <area>"; return 2
